@@ -145,8 +145,18 @@ impl Bytes {
         self.0.d[i as usize] = x;
     }
     /// sub-range [a, b)
-    pub fn slice(&self, r: core::ops::Range<u32>) -> Bytes {
-        let (a, b) = (r.start as usize, r.end as usize);
+    pub fn slice(&self, r: impl core::ops::RangeBounds<u32>) -> Bytes {
+        use core::ops::Bound;
+        let a = match r.start_bound() {
+            Bound::Included(x) => *x as usize,
+            Bound::Excluded(x) => *x as usize + 1,
+            Bound::Unbounded => 0,
+        };
+        let b = match r.end_bound() {
+            Bound::Included(x) => *x as usize + 1,
+            Bound::Excluded(x) => *x as usize,
+            Bound::Unbounded => self.0.len,
+        };
         if a > b || b > self.0.len {
             crate::mtrap!("TRAP:bytes slice range");
         }
